@@ -322,6 +322,7 @@ func init() {
 			ruleCRASH8(c)
 			ruleCRASH9(c)
 			ruleCRASH10(c)
+			ruleCRASH11(c)
 			ruleEMIT1(c, "CRASH-6")
 			ruleBIND2(c)
 		},
